@@ -5,7 +5,7 @@ name=$1; prop=$2; tier=${3:-quick}
 cd /repo || exit 2
 if [ -n "$(git status --porcelain)" ]; then echo "/repo not clean"; exit 2; fi
 git apply /verif/seeded/$name/patch.diff || { echo "patch does not apply"; exit 3; }
-cd /verif && VERIF_SEED=${VERIF_SEED:-1} ./check $prop --tier $tier > /tmp/mutrun-$name-$prop.log 2>&1; rc=$?
+cd /verif && VERIF_EVIDENCE_DIR=/dev/shm/mut-evidence VERIF_SEED=${VERIF_SEED:-1} ./check $prop --tier $tier > /tmp/mutrun-$name-$prop.log 2>&1; rc=$?
 git -C /repo checkout -- . 
 grep -E "^VIOLATION|^KNOWN|tier=" /tmp/mutrun-$name-$prop.log | head -5
 grep -E "failed after|panic after|flaky" /tmp/mutrun-$name-$prop.log | head -2 | cut -c1-400
